@@ -89,7 +89,7 @@ def case_export(run, i):
     d = os.path.join(run.workdir, f"e{run.shard}_{i}")
     os.makedirs(d, exist_ok=True)
     run.begin_case("export", i, cls=f"export:ploidy{ploidy}:{'cn' if has_cn else 'nocn'}")
-    seg = make_cna(cols, meta={"sample_id": "SampleA"})
+    seg = make_cna(cols, meta={"sample_id": "SampleA"}, odd=(i % 3 == 1))
 
     def safe(fn, *a):
         try:
